@@ -75,6 +75,10 @@ type c12Case struct {
 	Perm []int  `json:"iteration_order,omitempty"`
 	Lazy int    `json:"lazy_mask,omitempty"`              // processors: bit i = participant i is LazyInit
 	Late bool   `json:"order_known_after_init,omitempty"` // runners: Order() answers 0 until the runner's Init ran
+	// Supply (processors): participant Supply-1 answers a third node ("cnode") itself from
+	// before-instantiation: its creation is short-cut and the after-initialization callbacks of the
+	// whole chain - the supplier included - run over it, in the contract's sequence
+	Supply int `json:"supplier_of_a_short_cut_component,omitempty"`
 }
 
 func seqs(maxLen, nsym int, yield func([]int) bool) {
@@ -268,7 +272,11 @@ func c12RunSite(cs c12Case) (names []string, shared *scen.RT, o *scen.StartObs) 
 			}
 		}
 	}
-	var node2 *scen.N
+	var node2, node3 *scen.N
+	if cs.Supply > 0 {
+		parts[cs.Supply-1].Supply = "cnode"
+		node3 = &scen.N{Nm: "cnode", Q: "qc"}
+	}
 	if cs.Site == "processors" {
 		// two nodes on a cycle, so that the early-reference callbacks run as well
 		node, node2 = &scen.N{Nm: "anode", Q: "qa"}, &scen.N{Nm: "bnode", Q: "qb"}
@@ -293,6 +301,9 @@ func c12RunSite(cs c12Case) (names []string, shared *scen.RT, o *scen.StartObs) 
 	if node != nil {
 		reg = append(reg, comps[len(comps)-3:]...)
 	}
+	if node3 != nil {
+		reg = append(reg, node3)
+	}
 	sp := scen.StartSpec{Ch: envx.Fixed("", nil), Comps: reg, Opts: opts, User: user, Base: base}
 	// the participants need the runtime that Start creates: give them a shared log first
 	shared = &scen.RT{}
@@ -302,6 +313,9 @@ func c12RunSite(cs c12Case) (names []string, shared *scen.RT, o *scen.StartObs) 
 	if node != nil {
 		scen.SetRT(node, shared)
 		scen.SetRT(node2, shared)
+	}
+	if node3 != nil {
+		scen.SetRT(node3, shared)
 	}
 	o = scen.Start(sp)
 	return
@@ -350,6 +364,17 @@ func c12Sites(c *core.Ctx) {
 							}
 						}
 					}
+					// each participant in turn supplies a short-cut component
+					for sup := 1; sup <= n; sup++ {
+						for _, k := range []int{0, factorialInt(n) - 1} {
+							if ok = yield(c12Case{Seq: s, Site: site, Perm: scen.NthPerm(n, k), Supply: sup}); !ok {
+								return false
+							}
+							if n == 1 {
+								break
+							}
+						}
+					}
 				}
 				return true
 			})
@@ -371,19 +396,23 @@ func c12Sites(c *core.Ctx) {
 		for _, s := range cs.Seq {
 			symn = append(symn, c12Sym(s))
 		}
-		key := "C12/" + cs.Site + "/" + core.Hash(cs.Seq, cs.Perm, cs.Lazy, cs.Late)
+		key := "C12/" + cs.Site + "/" + core.Hash(cs.Seq, cs.Perm, cs.Lazy, cs.Late, cs.Supply)
 		if !o.OK() {
 			c.Outcome(cs.Site + "/start-failed")
 			c.Report(key, "start-failed", fmt.Sprintf("%s %v: start-up did not succeed: %v %s %s", cs.Site, symn, scen.FirstLine(o.Err), o.Panic, o.Abort), cs)
 			return
 		}
 		prefix := map[string]string{"runners": "run:", "loaders": "load:", "processors": "before:"}[cs.Site]
+		target := "" // processors: the callbacks for one node at a time
+		if cs.Site == "processors" {
+			target = ":anode"
+		}
 		check := func(prefix string) bool {
 			var classes, orders []int
 			seen := map[string]int{}
 			for _, e := range shared.Log {
-				if !strings.HasPrefix(e, prefix) || strings.HasSuffix(e, ":bnode") {
-					continue // per component: the callbacks for anode
+				if !strings.HasPrefix(e, prefix) || !strings.HasSuffix(e, target) {
+					continue // per component: the callbacks for one node
 				}
 				nm := strings.SplitN(strings.TrimPrefix(e, prefix), ":", 2)[0]
 				seen[nm]++
@@ -412,6 +441,13 @@ func c12Sites(c *core.Ctx) {
 		if cs.Site == "processors" {
 			for _, pf := range []string{"after:", "binst:", "ainst:", "props:", "early:"} {
 				if !check(pf) {
+					return
+				}
+			}
+			if cs.Supply > 0 {
+				// the short-cut component: after-initialization by every participant, in sequence
+				target = ":cnode"
+				if !check("after:") {
 					return
 				}
 			}
